@@ -1,5 +1,6 @@
 import E3fpVerif.Codec
 import E3fpVerif.Model.Fprinter
+import E3fpVerif.Model.FpObj
 namespace E3fpVerif
 open Lean
 
@@ -65,6 +66,36 @@ def fprinterOp (op : String) (j : Json) : Except String Json := do
                            ("shells", Json.arr ((sortByLt ltShellOut (shellsAt s lvl mask)).map shellJ).toArray)])
       return okJ (Json.mkObj [("current", natJ s.currentLevel), ("levels", levelsJ s), ("queries", Json.arr fps.toArray),
                               ("atoms", natsToJson (retained o m))])
+  | "fpo.hist" =>
+    let o ← jOpts (← jField j "opts")
+    let mols ← jList jMol (← jField j "mols")
+    let confs ← jList (fun c => do return (← jNat (← jField c "mol"), ← jCoords (← jField c "coords"))) (← jField j "confs")
+    let mult ← jFloatBits (← jField j "mult")
+    let runs ← jArr (← jField j "runs")
+    let mut f := FpObj.new o
+    let mut outs : Array Json := #[]
+    for r in runs do
+      let ci ← jNat (← jField r "conf")
+      let mid ← jOpt jNat (jFieldD r "mid")
+      let (mi, cs) := confs.getD ci (0, [])
+      let m := mols.getD mi ⟨[], []⟩
+      let g : Geo := Geo.ofCoords mult (coordFn cs)
+      let (f', res) := f.run mid m g
+      f := f'
+      match res, f'.state with
+      | .ok (), some s =>
+        let qs ← jArr (jFieldD r "queries" |> fun x => if x == .null then Json.arr #[] else x)
+        let fps ← qs.mapM (fun q => do
+          let lvl ← jOpt jInt (jFieldD q "level")
+          let bits ← jOpt jNat (jFieldD q "bits")
+          let mask ← (if jFieldD q "mask" == .null then pure [] else jList jNat (jFieldD q "mask"))
+          return Json.mkObj [("fp", exJ fpToJson (fingerprintAt o s lvl bits mask)),
+                             ("shells", Json.arr ((sortByLt ltShellOut (shellsAt s lvl mask)).map shellJ).toArray)])
+        outs := outs.push (okJ (Json.mkObj [("current", natJ s.currentLevel), ("levels", levelsJ s), ("queries", Json.arr fps.toArray),
+                              ("atoms", natsToJson f'.atoms)]))
+      | .error e, _ => outs := outs.push (errJ e)
+      | _, _ => outs := outs.push (errJ .other)
+    return okJ (Json.arr outs)
   | "fpr.hash" => return okJ (Json.num (murmur Gen.MMH3_SEED (← jList jInt (← jField j "words"))))
   | _ => .error s!"unknown op {op}"
 
